@@ -181,6 +181,9 @@ def fault(draw, lines, eol='\n'):
         c = [(i, j) for i, j in c if j == 1 or (lines[i].toks[j - 1].cls == 'kw' and lines[i].toks[j - 1].text.lower() == 'as')]
         if not c:
             return None
+        aliases = [(i, j) for i, j in c if j != 1]
+        if aliases and draw(st.booleans()):
+            c = aliases
         i, j = draw(st.sampled_from(c))
         toks = lines[i].toks
         a = j if j == 1 else j - 1
